@@ -20,3 +20,10 @@ pub assume_specification<T, const N: usize>[ <[T]>::split_first_chunk ](s: &[T])
             && (r->Some_0).0@ == s@.subrange(0, N as int)
             && (r->Some_0).1@ == s@.subrange(N as int, s@.len() as int),
 ;
+
+pub assume_specification<T, E, U, F: FnOnce(T) -> Result<U, E>>[ Result::<T, E>::and_then ](s: Result<T, E>, f: F) -> (r: Result<U, E>)
+    requires s is Ok ==> f.requires((s->Ok_0,)),
+    ensures
+        s is Err ==> r is Err && r->Err_0 == s->Err_0,
+        s is Ok ==> f.ensures((s->Ok_0,), r),
+;
